@@ -427,6 +427,84 @@ def check_upward_exposed_deflate(rep, mod):
         R.notes.append('%s: %s' % (k, v))
 
 
+def check_hash_input(rep):
+    """The match finders hash four bytes of INPUT (crc32 of a data word) to pick a hash bucket.  A hash taken of a value that is derived from an argument register - the stream
+    pointer, say - makes the bucket, and with it now and then the compressed bytes, a function of where the caller's objects live: output that differs from run to run under ASLR."""
+    from asmdb import REG64, is_mem, parse_mem
+    R = rep.rule('V-HASH-INPUT', 'asm deflate bodies and dictionary hashers (isal_deflate_body_0x, isal_deflate_icf_body_hash_hist_0x, isal_deflate_finish_0x, isal_deflate_icf_finish_hash_hist_0x, '
+                 'isal_deflate_hash_crc_01, gen_icf_map_lh1_0x): may-taint dataflow from the argument registers (the values the caller passed: pointers) through mov / lea / arithmetic / shifts; a register '
+                 'written by a load from memory or from untainted sources is clean; no crc32 (the hash of the match finders) takes a tainted register as its data operand: hash buckets depend on input bytes only',
+                 floor=8, unit='kernels')
+    units = asmdb.units('default')
+    ARGS = ['rdi', 'rsi', 'rdx', 'rcx', 'r8', 'r9']
+    n = 0
+    for un, u in sorted(units.items()):
+        for fn, f in sorted(u.funcs.items()):
+            if not re.match(r'^(isal_deflate_(body|finish|icf_body_hash_hist|icf_finish_hash_hist)_0\d|isal_deflate_hash_crc_01|gen_icf_map_lh1_0\d)$', fn):
+                continue
+            if not any(u.insns[a].mn == 'crc32' for a in f.addrs):
+                continue
+            n += 1
+            R.instance()
+            # which argument registers carry pointers / counts: all of them are caller values; a count hashed is just as wrong
+            IN = {f.addrs[0]: frozenset(ARGS)}
+            work = [f.addrs[0]]
+            bad = None
+            while work:
+                a = work.pop()
+                t = set(IN[a])
+                i = u.insns[a]
+                ops = i.ops
+                mn = i.mn
+                if mn == 'crc32' and len(ops) == 2 and not is_mem(ops[1]) and ops[1] in REG64 and REG64[ops[1]][0] in t and bad is None:
+                    bad = i
+                if ops and ops[0] in REG64 and mn not in ('cmp', 'test', 'push', 'crc32', 'bt'):
+                    dst = REG64[ops[0]][0]
+                    srcs = set()
+                    memsrc = False
+                    for o in ops[1:]:
+                        if is_mem(o):
+                            if mn == 'lea':
+                                pm = parse_mem(o)
+                                srcs |= {REG64[x][0] for x in (pm['base'], pm['index']) if x and x in REG64}
+                            else:
+                                memsrc = True
+                        elif o in REG64:
+                            srcs.add(REG64[o][0])
+                    reads_dst = mn not in ('mov', 'movzx', 'movsx', 'movsxd', 'lea', 'pop', 'movd', 'movq', 'pextrd', 'pextrq', 'pextrw', 'pextrb', 'vmovd', 'vmovq', 'vpextrd', 'vpextrq', 'bsf', 'bsr', 'tzcnt', 'lzcnt',
+                                            'popcnt', 'shlx', 'shrx', 'sarx', 'bzhi', 'andn', 'rorx', 'pmovmskb', 'vpmovmskb', 'kmovq', 'kmovd', 'setne', 'sete') and not mn.startswith('set') and not mn.startswith('cmov')
+                    if mn in ('xor', 'sub') and len(ops) == 2 and ops[0] == ops[1]:
+                        t.discard(dst)
+                    elif mn.startswith('cmov'):
+                        if srcs & t:
+                            t.add(dst)
+                    else:
+                        tainted = bool(srcs & t) or (reads_dst and dst in t)
+                        if mn == 'mov' and memsrc:
+                            tainted = False
+                        if mn == 'pop':
+                            tainted = False
+                        if tainted:
+                            t.add(dst)
+                        else:
+                            t.discard(dst)
+                if mn == 'crc32' and ops and ops[0] in REG64:
+                    # result of hashing: clean iff operand clean (the destination is zeroed before in the hash macro; keep it simple)
+                    pass
+                for s_ in u.succ(f, a):
+                    if s_ not in f.aset:
+                        continue
+                    nt = frozenset(t) if s_ not in IN else IN[s_] | frozenset(t)
+                    if s_ not in IN or nt != IN[s_]:
+                        IN[s_] = nt
+                        work.append(s_)
+            R.check(bad is None, '%s: %s' % (un, u.where(bad, f)) if bad is not None else un, '%s hashes a register that still carries a value derived from an argument register (a pointer of the caller, not input data): the '
+                    'bucket chosen - and occasionally the compressed output - depends on the address of the caller\'s object, i.e. changes from run to run' % fn, key='V-HASH-INPUT|%s' % fn,
+                    sample='%s: every crc32 data operand comes from loaded input' % fn)
+    if n == 0:
+        raise AnalysisBroken('V-HASH-INPUT: no kernel with a crc32 hash found')
+
+
 def main(tier):
     rep = Report('C15', tier, level='proof')
     rep.undecided = UNDECIDED
@@ -451,4 +529,5 @@ def main(tier):
     import c05
     rep.attempt(c05.check_hashfill_bound, rep, mod)      # a word hashed past the dictionary contains whatever the buffer held before
     rep.attempt(provenance.check_undef, rep, None, 'ALL', 130)
+    rep.attempt(check_hash_input, rep)
     return rep.finish()
